@@ -6,7 +6,7 @@ cd /verif
 rc=0
 for meta in seeded/${1:-}*/meta.json; do
   d=$(dirname $meta); id=$(basename $d)
-  read -r funcs obls < <(python3 - "$meta" <<'PY'
+  IFS=$'\t' read -r funcs obls < <(python3 - "$meta" <<'PY'
 import json,sys,re
 m=json.load(open(sys.argv[1]))
 det=m.get('detected_by','')
@@ -16,7 +16,7 @@ for tok in re.findall(r'([A-Za-z_.*]+(?:\$[0-9]+)?)#([A-Za-z0-9_.:$*-]+)', det):
     if '.' in f:
         if f not in fs: fs.append(f)
         obs.append(f+'#'+o)
-print(' '.join(fs), '|'.join(obs) if obs else '-')
+print(' '.join(fs) + '\t' + ('|'.join(obs) if obs else '-'))
 PY
 )
   if [ -z "$funcs" ]; then echo "$id SKIP (no detecting obligation recorded)"; continue; fi
